@@ -70,7 +70,13 @@ class SHACLRule(object):
             raise RuleLoadError(
                 "A SHACL Rule must be a numeric literal.", "https://www.w3.org/TR/shacl-af/#rules-order"
             )
-        return Decimal(order_node.value)
+        if isinstance(order_node.value, Decimal):
+            return order_node.value
+        if isinstance(order_node.value, int):
+            return Decimal(order_node.value)
+        if isinstance(order_node.value, float):
+            return Decimal(str(order_node.value))
+        raise RuleLoadError("A SHACL Rule must be a numeric literal.", "https://www.w3.org/TR/shacl-af/#rules-order")
 
     def get_conditions(self):
         shapes_graph_g = self.shape.sg.graph
